@@ -41,6 +41,7 @@ import (
 	"net"
 	"net/http"
 	"reflect"
+	"sync"
 
 	"github.com/mailgun/multibuf"
 	"github.com/vulcand/oxy/v2/utils"
@@ -184,6 +185,11 @@ func (b *Buffer) ServeHTTP(w http.ResponseWriter, req *http.Request) {
 		defer bw.Close()
 
 		b.next.ServeHTTP(bw, outReq)
+		// the attempt is over: whoever still holds its body (http.Transport may keep writing the request in its
+		// own goroutine after the response has been read) must not touch the shared buffer any more
+		if ab, ok := outReq.Body.(*attemptBody); ok {
+			ab.detach()
+		}
 		if bw.hijacked {
 			b.log.Debug("vulcand/oxy/buffer: connection was hijacked downstream. Not taking any action in buffer.")
 			return
@@ -249,9 +255,36 @@ func (b *Buffer) copyRequest(req *http.Request, body io.ReadCloser, bodySize int
 	if body == nil {
 		o.Body = io.NopCloser(req.Body)
 	} else {
-		o.Body = io.NopCloser(body.(io.Reader))
+		o.Body = &attemptBody{r: body.(io.Reader)}
 	}
 	return &o
+}
+
+// attemptBody is the view of the buffered request body handed to one attempt. All attempts read the same
+// underlying buffer, which is rewound between them, so a reader left over from a finished attempt is cut off
+// (under a lock, which also orders its last read before the rewind) instead of racing with the next attempt.
+type attemptBody struct {
+	mu       sync.Mutex
+	r        io.Reader
+	detached bool
+}
+
+func (a *attemptBody) Read(p []byte) (int, error) {
+	a.mu.Lock()
+	defer a.mu.Unlock()
+	if a.detached {
+		return 0, http.ErrBodyReadAfterClose
+	}
+	return a.r.Read(p)
+}
+
+// Close does nothing: the buffer controls the life of the underlying reader itself.
+func (a *attemptBody) Close() error { return nil }
+
+func (a *attemptBody) detach() {
+	a.mu.Lock()
+	a.detached = true
+	a.mu.Unlock()
 }
 
 func (b *Buffer) checkLimit(req *http.Request) error {
